@@ -18,8 +18,8 @@ RULE = ('programs = corpus (friendly ones), placements = every executable line a
         'watches{none,local,expression,failing} x path settings{app-root, include, exclude}; graphs = C05 family with default limits; '
         'concurrent facet = 2 threads x all schedules with <=1 preemption at line granularity in every deep/ module; '
         'non-trivial = the snapshot carries at least one variable with children or a watch, or >1 frame')
-ASSUMPTIONS = ['order of variables/children is not compared', 'arguments echoed on the snapshot only must not contradict the given ones',
-               'line of a method tracepoint is not compared', 'unknown frame_type values are don\'t-cares']
+ASSUMPTIONS = ['order of variables/children is not compared',
+               'the line named for a method tracepoint is the line it was given', 'unknown frame_type values are don\'t-cares']
 
 FRAME_TYPES = ['single_frame', 'all_frame', 'no_frame']
 WATCHSETS = ['none', 'local', 'expr', 'failing']
@@ -199,6 +199,14 @@ def check_snapshot(ctx, snap, ref, tp, frame_type, watches, pathcfg, case, label
         if k in t.args and t.args[k] != v:
             ctx.violation('C02/tracepoint-arguments-contradict', f'{label}: argument {k} echoed as {t.args[k]!r}, given {v!r}', case)
             return False
+    # the snapshot names the tracepoint with the arguments it was given - all of them (condition, method_name, stage, ... and whatever
+    # else the service attached), and none it was not given
+    missing = {k: v for k, v in tp['args'].items() if k not in t.args}
+    extra = {k: v for k, v in t.args.items() if k not in tp['args']}
+    if missing or extra:
+        ctx.violation('C02/tracepoint-arguments-differ', f'{label}: the tracepoint was given arguments {tp["args"]}; the snapshot names it with {dict(t.args)} '
+                      f'(dropped {sorted(missing)}, invented {sorted(extra)})', case)
+        return False
     return True
 
 
